@@ -20,7 +20,10 @@ RULE = ("history = random world file (0-8 entries incl. neighbours of the subjec
         ">1 or a sub-slot/operator, or a remove, or any step on a file that holds another entry of the same package name; "
         "distinct = (op, atom text, entries before). Crash part (counters crash_*): for flush() of generated (old file, "
         "pending changes) pairs EVERY numbered filesystem operation is a crash boundary and an EIO point, the write is also "
-        "torn by a real dying process; afterwards the file text must be the complete old or the complete new text.")
+        "torn by a real dying process; afterwards the file text must be the complete old or the complete new text.  Retry part "
+        "(counters retry_*): the temporary file's write or close raises once (ENOSPC/EIO), the old file must be untouched and no "
+        "temporary left; flush() is then called again on the same object without further changes and, having returned normally, "
+        "must have put exactly the requested entries into the file.")
 ASSUMPTIONS = [
     "entries are the atom lines; comment lines and @set references are not entries (pkgcore documents that WorldFile drops "
     "@set lines on update) and their survival is not judged",
@@ -36,7 +39,7 @@ SHARDS = {"quick": 4, "thorough": 16}
 TIMEOUT = {"quick": 600, "thorough": 3000}  # generous: the sandbox is shared; normal wall is far below
 MIN_EVALS = 2000
 REQUIRED_COUNTERS = ("step:add", "step:remove", "step:flush", "step:uw_add", "step:uw_remove", "slot_multi_char_steps",
-                     "crash_boundaries_judged", "crash_eio_points_judged", "crash_state:old", "crash_state:new")
+                     "crash_boundaries_judged", "crash_eio_points_judged", "crash_state:old", "crash_state:new", "retry_flush_judged")
 
 KEYS = ["dev-lang/python", "x11-libs/gtk+", "dev-libs/libfoo-bar", "app-misc/a_b", "c/d", "sys-apps/portage", "a/b"]
 SLOT_POOL = [None, "0", "1", "9", "a", "_", "10", "11", "00", "2.7", "3.10", "0.1", "1.2-r3", "stable", "a+b", "1_2", "5-x",
@@ -582,6 +585,80 @@ def shape_cases(ctx):
     return out
 
 
+def retry_after_failed_flush(ctx, base, spec, fail_at):
+    """A flush() that fails (write / close of the temporary file raises; the old file stays) followed by a flush() on the SAME
+    object without further changes: the second one returns normally, so the file must hold the requested entries."""
+    import errno
+
+    from pkgcore.ebuild.atom import atom
+    from pkgcore.pkgsets import filelist
+
+    d = pjoin(base, "retry")
+    shutil.rmtree(d, ignore_errors=True)
+    os.makedirs(d)
+    path = pjoin(d, "world")
+    with open(path, "w") as f:
+        f.write(spec["old_text"])
+    ws = filelist.WorldFile(path, gid=os.getgid(), mode=0o644)
+    for kind, text in spec["changes"]:
+        (ws.add if kind == "add" else ws.remove)(atom(text))
+    real = filelist.AtomicWriteFile
+    fired = []
+
+    class Failing:
+        def __init__(self, *a, **kw):
+            object.__setattr__(self, "_f", real(*a, **kw))
+
+        def __getattr__(self, name):
+            return getattr(self._f, name)
+
+        def write(self, *a, **kw):
+            if fail_at == "write" and not fired:
+                fired.append("write")
+                raise OSError(errno.ENOSPC, "No space left on device (injected)")
+            return self._f.write(*a, **kw)
+
+        def close(self, *a, **kw):
+            if fail_at == "close" and not fired:
+                fired.append("close")
+                raise OSError(errno.EIO, "Input/output error (injected)")
+            return self._f.close(*a, **kw)
+
+    filelist.AtomicWriteFile = Failing
+    first = None
+    try:
+        try:
+            ws.flush()
+            first = "returned"
+        except OSError as e:
+            first = "raised:%s" % errno.errorcode.get(e.errno, e.errno)
+    finally:
+        filelist.AtomicWriteFile = real
+    ctx.count("retry_first_flush:" + first)
+    w = {"rule": "retried-flush", "crash": dict(spec), "fail_at": fail_at, "first_flush": first}
+    if not fired:
+        ctx.count("retry_fault_not_reached")
+        return
+    text_mid, others = state_of(d)
+    ctx.evaluated()
+    if first != "returned" and (text_mid != spec["old_text"] or others):
+        ctx.violation("flush-not-atomic", dict(w, rule="failed-flush-left-traces", file_text=text_mid, others=others))
+        return
+    try:
+        ws.flush()
+    except Exception as e:
+        ctx.violation("flush-vs-model", dict(w, rule="retried-flush-raised", exc="%s: %s" % (type(e).__name__, e)))
+        return
+    text, others = state_of(d)
+    ents, problems = ref.entries_of_text(text or "")
+    ctx.evaluated()
+    ctx.count("retry_flush_judged")
+    ctx.nontrivial(("retry", fail_at, spec["old_text"], tuple(map(tuple, spec["changes"]))))
+    if sorted(ents) != spec["expected_new_entries"] or problems or others:
+        ctx.violation("file-vs-model", dict(w, file_text=text, file_entries=sorted(ents), problems=problems, others=others))
+    shutil.rmtree(d, ignore_errors=True)
+
+
 def run(ctx):
     from .. import fault
 
@@ -595,6 +672,9 @@ def run(ctx):
     if ctx.shard == 0:
         specs[0] = {"old_text": "a/b\nc/d:1\n", "changes": [["add", "c/d:2"]], "via": "flush", "expected_new_entries": ["a/b", "c/d:1", "c/d:2"]}
     crash_part(ctx, fault, pjoin(base, "crash"), specs)
+    for i in range(ctx.budget(12, 80)):
+        sp = specs[i] if i < len(specs) else rand_flush_spec(rng, 100 + i)
+        retry_after_failed_flush(ctx, base, dict(sp, via="flush"), ("write", "close")[i % 2])
     # (a) slot-shape matrix
     cases = shape_cases(ctx)
     for idx, h in enumerate(cases):
@@ -643,7 +723,9 @@ def replay(ctx, w):
     base = pjoin(os.environ["VT_SCRATCH"], "c30-replay")
     shutil.rmtree(base, ignore_errors=True)
     os.makedirs(base)
-    if "crash" in w:
+    if "fail_at" in w:
+        retry_after_failed_flush(ctx, base, w["crash"], w["fail_at"])
+    elif "crash" in w:
         spec = w["crash"]
         case = FlushCase(pjoin(base, "f0"), spec)
         from ..gen.c29_faultdriver import run_driver
